@@ -222,6 +222,13 @@ pub fn finalize_world() {
     let n = with_run(|r| r.world.children.len());
     for id in 0..n {
         note_exit(id as u32, now);
+        let (g, m, grp) = with_run(|r| {
+            let c = &r.world.children[id];
+            (c.spec.grandchildren, c.members_alive, c.group)
+        });
+        if g > 0 {
+            log(Ev::Note { what: if grp { "group-members-alive" } else { "ungrouped-members-alive" }, a: id as i64, b: m as i64 });
+        }
     }
 }
 
